@@ -3,6 +3,7 @@ import NaijaVerif.Driver.AstEcho
 import NaijaVerif.Driver.Bump
 import NaijaVerif.Driver.Strs
 import NaijaVerif.Driver.ReadLine
+import NaijaVerif.Driver.Render
 import NaijaVerif.Driver.Proc
 import NaijaVerif.Driver.Limits
 import NaijaVerif.Driver.Capture
@@ -23,6 +24,7 @@ def main (args : List String) : IO UInt32 := do
   | ["bump"] => NaijaVerif.Driver.BumpD.main; return 0
   | ["strs"] => NaijaVerif.Driver.StrsD.main; return 0
   | ["readline"] => NaijaVerif.Driver.ReadLineD.main; return 0
+  | ["render"] => NaijaVerif.Driver.RenderD.main; return 0
   | ["proc"] => NaijaVerif.Driver.ProcD.main; return 0
   | ["limits"] => NaijaVerif.Driver.LimitsD.main; return 0
   | ["capture"] => NaijaVerif.Driver.CaptureD.main; return 0
